@@ -98,7 +98,7 @@ pub fn strategy(g: TxGen) -> BoxedStrategy<SpCase> {
                         steps.push(Step::W(e));
                         steps.push(Step::Adv(300));
                     }
-                    SpCase { sock: sock.clone(), incoming, peer_isn, conn_id, peer_wnd, complete_handshake: true, key, steps, linger_ms: 500, discipline: true }
+                    SpCase { sock: sock.clone(), incoming, peer_isn, conn_id, peer_wnd, complete_handshake: true, key, steps, linger_ms: 500, discipline: true, bystander: None }
                 })
         })
         .boxed()
